@@ -21,19 +21,22 @@ InsertAt(q, i, x) == [j \in 1..(Len(q) + 1) |->
 SetAt(q, i, x) == [q EXCEPT ![i] = x]
 
 (***************************************************************************)
-(* The outcome of reading an edited stream to its end, as an operator (used *)
-(* to predict what the real reader must do for a given edit script): the    *)
-(* number of messages delivered before the first error.  q is the edited    *)
-(* chunk sequence of direction d, read from a fresh reader state.           *)
+(* The outcome of reading an (edited) chunk sequence q of direction d to   *)
+(* its end with a fresh reader: the number of messages delivered before    *)
+(* the first error.  The cipher state before the e-th encryption (0-based) *)
+(* is StAt(e); message m is delivered iff chunks 2m-1 and 2m open under    *)
+(* StAt(2m-2) and StAt(2m-1) as a header and the matching body.            *)
 (***************************************************************************)
-RECURSIVE Delivered(_, _, _, _)
-Delivered(d, q, s, n) ==
-    IF Len(q) < 2 THEN n
-    ELSE LET c1 == q[1]
-             c2 == q[2]
-             s2 == Bump(s) IN
-         IF Opens(d, c1, s) /\ c1.part = "hdr" /\ Opens(d, c2, s2)
-            /\ c2.part = "body" /\ c2.msg = c1.msg
-         THEN Delivered(d, SubSeq(q, 3, Len(q)), Bump(s2), n + 1)
-         ELSE n
+StAt(e) == [gen |-> e \div ROT, nonce |-> e % ROT]
+
+GoodMsg(d, q, m) ==
+    LET c1 == q[2 * m - 1]
+        c2 == q[2 * m] IN
+    /\ Opens(d, c1, StAt(2 * m - 2)) /\ c1.part = "hdr"
+    /\ Opens(d, c2, StAt(2 * m - 1)) /\ c2.part = "body" /\ c2.msg = c1.msg
+
+Delivered(d, q) ==
+    LET n == Len(q) \div 2 IN
+    CHOOSE k \in 0..n : (\A m \in 1..k : GoodMsg(d, q, m))
+                         /\ (k = n \/ ~GoodMsg(d, q, k + 1))
 =============================================================================
